@@ -464,7 +464,8 @@ func firstFreeLoad(lit *ssa.Function, name string) ssa.Value {
 func c11(r *Run) {
 	w := r.W
 	// the built block's state timestamp and header timestamp come from one clock reading
-	defer r.importRules(c02, "C02.R2")
+	// a locally built block counts as verified: the builder's own gap guards are the verification of those blocks
+	defer r.importRules(c02, "C02.R2", "C02.R5")
 	r.rule("C11.R1", "K6", "createBlockContext predicates; parent metadata read from the executed-on view; read/parse errors returned", 8)
 	r.rule("C11.R2", "K6/K2", "future bound precedes all work; parent-root check on every path to success", 3)
 	r.rule("C11.R3", "K5", "the timestamp written to a block's post-state is that block's header timestamp, at every writer", 3)
@@ -583,6 +584,8 @@ func c12(r *Run) {
 	w := r.W
 	// builder side of R4: a transaction joins the block only after Consume accepted it
 	defer r.importRules(c02, "C02.R3")
+	// units are metered under the rules given on each call (no memo across rule sets)
+	defer r.importRules(c07, "C07.R3")
 	r.rule("C12.R1", "K8", "Units/EstimateUnits accumulate only through Uint64Operator; every Value() error returns; operator methods use checked math and keep the first error", 10)
 	r.rule("C12.R2", "K5", "dimension table of the unit vector", 6)
 	r.rule("C12.R3", "K1/K6", "Consume: complete check loop (overflow, limit) precedes every store; stored value is the checked value; write lock held", 7)
